@@ -195,7 +195,9 @@ def _voxel_specs(tier):
 
 def cases(tier, seed):
     return _cases(tier, seed) + [{"id": "translate:ndarray-centres",
-                                  "kind": "alias"}]
+                                  "kind": "alias"},
+                                 {"id": "integer-typed-geometry",
+                                  "kind": "inttypes"}]
 
 
 def _cases(tier, seed):
@@ -1286,12 +1288,71 @@ def _run_alias(case, ck):
     return digest(*acc)
 
 
+def _run_inttypes(case, ck):
+    """radii, centres and query points held as narrow / unsigned integers
+    (pixel units): containment, bounds and overlaps are those of the same
+    numbers as floats"""
+    import holopy.scattering.scatterer as hs
+    acc = []
+    pts = np.array([[120, 100, 100], [100, 100, 100], [100, 251, 100],
+                    [10, 10, 10], [100, 100, 160]])
+    for dt in ("int16", "uint8", "uint16", "int32", "float32"):
+        c = np.array([100, 100, 100]).astype(dt)
+        for mk, name in ((lambda r: hs.Sphere(n=1.5, r=r, center=c),
+                          "Sphere"),
+                         (lambda r: hs.Sphere(n=[1.5, 1.6],
+                                              r=[r // 2 if dt[0] != "f"
+                                                 else r / 2, r], center=c),
+                          "layered Sphere"),
+                         (lambda r: hs.Ellipsoid(n=1.5, r=[r, r, r],
+                                                 center=c), "Ellipsoid")):
+            r = np.array(60).astype(dt)[()]
+            ref = mk(60.0)
+            ref.center = (100.0, 100.0, 100.0)
+            s = mk(r)
+            for pdt in (dt, "float64"):
+                got = s.contains(pts.astype(pdt))
+                want = ref.contains(pts.astype(float))
+                ck.trans += 2
+                ck.true("integer-typed-geometry", list(got) == list(want),
+                        "%s with radius / centre as %s, points as %s: "
+                        "contains = %r, with floats %r" %
+                        (name, dt, pdt, list(got), list(want)))
+            b, bw = np.asarray(s.bounds, float), np.asarray(ref.bounds, float)
+            ck.true("integer-typed-geometry", bool(np.array_equal(b, bw)),
+                    "%s with radius / centre as %s: bounds %r, with floats "
+                    "%r" % (name, dt, b.tolist(), bw.tolist()))
+        for d, r1, r2, want in ((250, 200, 100, [(0, 1)]),
+                                (250, 100, 100, [])):
+            if dt == "uint8" and d > 255:
+                continue
+            mem = [hs.Sphere(n=1.5, r=np.array(r1).astype(dt)[()],
+                             center=np.array([0, 0, 0]).astype(dt)),
+                   hs.Sphere(n=1.5, r=np.array(r2).astype(dt)[()],
+                             center=np.array([d, 0, 0]).astype(dt))]
+            with warnings.catch_warnings():
+                warnings.simplefilter("ignore")
+                sc = hs.Spheres(mem, warn=False)
+            ck.trans += 1
+            got = [tuple(p) for p in sc.overlaps]
+            lo = float(sc.largest_overlap())
+            ck.true("integer-typed-geometry", got == want and
+                    lo == max(0.0, float(r1 + r2 - d)), "spheres of radii "
+                    "%d, %d at distance %d, all as %s: overlaps %r "
+                    "(expected %r), largest overlap %r" %
+                    (r1, r2, d, dt, got, want, lo))
+        acc.append(dt)
+    return digest(acc)
+
+
 def run_case(case):
     ck = Checker()
     kind = case["kind"]
     outcome = "ok"
     if kind == "alias":
         return ck.result(fp=_run_alias(case, ck))
+    if kind == "inttypes":
+        return ck.result(fp=_run_inttypes(case, ck))
     if kind == "shape":
         fp = _run_shape(case, ck)
     elif kind == "csg":
